@@ -528,6 +528,10 @@ def flush_empties_the_buffer_on_every_path(ctx):
         cfg = CFG(f.node, m, f.module)
         stores = [i for t, v, s in attr_stores(f.node) if t.attr == '_rxbuffer' and isinstance(v, ast.Constant) and v.value == b'' for i in cfg.node_of(s)]
         ok = bool(stores) and cfg.all_paths_pass([cfg.entry], [cfg.exit], stores, exc=False)
+        if bool(stores) and not ok:
+            # ... or every way around the clearing store leaves a test on the side where the buffer was found empty (`if self._rxbuffer:`)
+            ok = paths_need_fact(cfg, [cfg.entry], [cfg.exit], lambda a, tv: not tv and isinstance(a, ast.Attribute) and a.attr == '_rxbuffer' and dotted(a.value) == 'self',
+                                 avoid=stores)
         ctx.check(ok, f'{f.qualname}:buffer cleared on every path', f.node, "self._rxbuffer = b'' on every normal path",
                   'a path through flush_recv returns without clearing the receive buffer (e.g. when nothing else is pending on the socket): stale '
                   'bytes stay buffered and are returned as the reply of the next command', f)
